@@ -487,6 +487,13 @@ def value_and_finish(ctx):
         s = lambda f: T(('pre', P(f)))
         prove(ctx, R, 'PathResCoeff::calc_res_val', an, 'eq', T(an.ret()), s('res_net') + s('res_coeff') * (x - s('offset')), assume=A,
               note='piecewise-linear value: cumulative value at the boundary + coefficient · distance past it')
+    # the extent of the path the simulation and the braking-curve construction walk over: first / last link point
+    for fn, want, what in (('PathTpc::offset_begin', ('pre', P('link_points') + (('idx', ZERO), ('f', 'offset'))), 'offset of the FIRST link point'),
+                           ('PathTpc::offset_end', ('pre', P('link_points') + (('idx', mk('sub', ('len', ('pre', P('link_points'))), ONE)), ('f', 'offset'))), 'offset of the LAST link point')):
+        b = ctx.anchor(R, fn)
+        an = analysis_or_fail(ctx, R, b) if b is not None else None
+        if an is not None:
+            ctx.check(an.ret() == want, R, fn, 'returns the %s' % what, 'returns %s' % show(an.ret(), an.names)[:160], ctx.where(b))
     R = 'C06-9.finish'
     b = ctx.anchor(R, 'PathTpc::finish')
     an = analysis_or_fail(ctx, R, b) if b is not None else None
